@@ -1622,7 +1622,50 @@ def g_c14(r, tier, env, Ls):
         cs.append(Case(line, meta, "build-multiphase", oracle=oracle_build, compare=False, tags=["reorder=%d" % meta["reorder"], "phases=%d" % meta["nph"]]))
     # permutation invariance of the per-species solution (reorder on/off, species listed in different orders), tolerances by name
     cs += gen_bsolve_groups(r, env, Ls, 30 if tier == "quick" else 500, "c14b")
+    cs += gen_cpassign(r, Ls, 40 if tier == "quick" else 600)
     return cs
+
+def gen_cpassign(r, Ls, n):
+    """copy-assignment between States of two solvers whose internal species orders differ; all reads by name"""
+    cs = []
+    for _ in range(n):
+        L = r.pick(Ls); ns = r.rng(2, 6); ncell = r.rng(1, 2 * max(L, 1) + 1)
+        perm1 = r.shuffle(range(ns)); perm2 = r.shuffle(range(ns))
+        if r.chance(0.2): perm2 = list(perm1)
+        reorder2 = r.below(2)
+        v1 = [r.logu(1e-2, 1e2) for _ in range(ns * ncell)]; v2 = [r.logu(1e-2, 1e2) for _ in range(ns * ncell)]
+        j = r.below(ns); newv = [r.logu(1e-2, 1e2) for _ in range(ncell)]; dt = r.logu(1e-2, 1e1)
+        toks = ["cpassign", str(L), str(ns), str(ncell), str(reorder2)] + [str(x) for x in perm1] + [str(x) for x in perm2] \
+            + [hexd(v) for v in v1] + [hexd(v) for v in v2] + [str(j)] + [hexd(v) for v in newv] + [hexd(dt)]
+        meta = dict(L=L, ns=ns, ncell=ncell, v1=v1, v2=v2, j=j, newv=newv, perm1=perm1, perm2=perm2, reorder2=reorder2)
+        cs.append(Case(" ".join(toks), meta, "cpassign", oracle=oracle_cpassign,
+                       tags=["cpassign", "orders_differ=%d" % int(perm1 != perm2 or reorder2 == 1)]))
+    return cs
+
+def oracle_cpassign(c, out):
+    cmd, d = parse_kv(out or "")
+    if cmd != "cpassign":
+        return f"copy-assignment case outcome '{(out or '')[:80]}'"
+    m = c.meta; ns, ncell = m["ns"], m["ncell"]
+    def vals(k): return [unhex(x) for x in d.get(k, [])]
+    def first(got, exp):
+        q = next((i for i in range(len(exp)) if i >= len(got) or got[i] != exp[i]), None)
+        return None if q is None else (q // ncell, q % ncell, got[q] if q < len(got) else None, exp[q])
+    ctx = f"(species orders {m['perm1']} vs {m['perm2']}, reorder of the second solver={m['reorder2']}, L={m['L']})"
+    f = first(vals("byname"), m["v1"])
+    if f: return f"after dst = src (States of two solvers), dst reads species s{f[0]} in cell {f[1]} as {f[2]!r}; the source holds {f[3]!r} {ctx}"
+    f = first(vals("rev"), m["v2"])
+    if f: return f"after dst = src (the other direction), dst reads species s{f[0]} in cell {f[1]} as {f[2]!r}; the source holds {f[3]!r} {ctx}"
+    if d.get("cons", ["0"])[0] != "1":
+        return f"after dst = src the name map and the name list of dst are not the source's (or not inverse to each other) {ctx}"
+    f = first(vals("after_a"), m["v1"])
+    if f: return f"setting a concentration on the assigned copy changed the source: s{f[0]} cell {f[1]} {ctx}"
+    exp = list(m["v1"]); exp[m["j"] * ncell:(m["j"] + 1) * ncell] = m["newv"]
+    f = first(vals("after_b"), exp)
+    if f: return f"SetConcentration(s{m['j']}) on the assigned copy: s{f[0]} cell {f[1]} reads {f[2]!r}, expected {f[3]!r} {ctx}"
+    if d.get("solve_same", ["0"])[0] != "1":
+        return f"solving the copy-assigned State does not give, species by species, the result of solving a copy-constructed State {ctx}"
+    return None
 
 def oracle_perm(c, out):
     cmd, d = parse_kv(out or "")
@@ -1831,6 +1874,7 @@ def g_c17(r, tier, env, Ls):
                 cur = nxt
             ops.append([solve[0], str(cur)] + solve[2:])
             cs.append(Case(hist_line(p, ops), dict(p), "hist-moved", group=(("c17m", gid), grp_last_equal), tags=["moved_vs_direct"]))
+    cs += gen_cpassign(r, Ls, 30 if tier == "quick" else 400)
     return cs
 
 def oracle_copy_equal(c, out):
@@ -1910,6 +1954,11 @@ def oracle_dense(c, out):
     if any(a >= size for a in addr): return "element address outside storage"
     ext = [unhex(x) for x in d.get("ext", [])]
     if ext != [float(a + 1) for a in addr]: return "row extraction does not return the addressed elements"
+    cext = [unhex(x) for x in d.get("cext", [])]
+    if cext != ext:
+        q = next((i for i in range(min(len(ext), len(cext))) if ext[i] != cext[i]), min(len(ext), len(cext)))
+        return (f"row extraction through a const reference does not return the addressed elements: row {q // max(m['cols'], 1)} column "
+                f"{q % max(m['cols'], 1)} (rows={m['rows']}, cols={m['cols']}, L={m.get('L')})")
     ax = sorted(int(x) for x in d.get("axpy", []))
     if ax != sorted(addr): return "Axpy does not act on exactly the logical elements"
     asg = [unhex(x) for x in d.get("asg", [])]
@@ -2220,6 +2269,19 @@ def g_c08(r, tier, env, Ls):
         p = dict(integ=1, L=r.pick(Ls), csc=r.below(2), kind=r.below(4), ncell=1, ns=1, perm=[0], rx=[([0], [])], k=[k], y=[y0],
                  atol=[1e-12], rtol=1e-9, dt=dt, ptoks=G.be_param_tokens(b))
         cs.append(Case(problem_line(p, clamp=0, trace=0), dict(k=k, y0=y0, dt=dt), "be-linear", oracle=oracle_be_linear, tags=["be_linear"]))
+    # ... and, with an h_start that makes several internal steps, the COMPOSITION of the implicit-Euler maps
+    # (I - H_i A)^-1 over the failure-free step schedule H_1, H_2, ... of backward_euler.inl, which adds up to time_step
+    for _ in range(60 if tier == "quick" else 1500):
+        L = r.pick(Ls); ns = r.rng(1, 4)
+        rx = linear_mech(r, ns)
+        dt = r.logu(1e-1, 1e2)
+        b = dict(env["be"]); b["h_start"] = r.pick([0.0, dt / r.pick([2, 3, 4, 10, 64]), r.logu(1e-2, 1e1)])
+        p = dict(integ=1, L=L, csc=r.below(2), kind=r.below(4), ncell=1, ns=ns, perm=r.shuffle(range(ns)), rx=rx,
+                 k=[r.logu(1e-2, 1e1) for _ in rx], y=[r.logu(1e-2, 1e2) for _ in range(ns)], atol=[1e-12] * ns, rtol=1e-9, dt=dt,
+                 ptoks=G.be_param_tokens(b))
+        p["h_start"] = b["h_start"]
+        cs.append(Case(problem_line(p, clamp=0, trace=0), dict(p), "be-linear-composed", oracle=oracle_be_linear_composed,
+                       tags=["be_linear_composed", "h_start=%s" % ("default" if b["h_start"] == 0.0 else "custom")]))
     # accuracy sentence, Rosenbrock: A -> B with a known solution, every coefficient set and layout, several cells with
     # very different rate constants, non-uniform per-species tolerances
     for _ in range(60 if tier == "quick" else 1500):
@@ -2303,6 +2365,101 @@ def oracle_be_linear(c, out):
     exact = m["y0"] / (1.0 + m["dt"] * m["k"])
     if abs(s["y"][0] - exact) > 1e-9 * abs(exact):
         return f"backward Euler on y' = -k y gave {s['y'][0]!r}, the implicit-Euler map gives {exact!r}"
+    return None
+
+def divergence_oracle(pid, c, io, mo):
+    """Called for a case on which implementation and model disagree.  The model is what the theorems are about, so a
+    disagreement that is far outside rounding, at the first attempt where the two part, is a failing input for the
+    property the stream decides; a rounding-sized one is only a broken tie (returns None)."""
+    if pid == "C05" and c.kind == "solve-trace" and c.meta.get("integ") == 0:
+        return div_ros_trace(c, io, mo)
+    return None
+
+def div_ros_trace(c, io, mo):
+    if not io or not mo or not io.startswith("solve ") or not mo.startswith("solve "):
+        return None
+    ai, am = parse_att(io), parse_att(mo)
+    ti, tm = parse_trace(io), parse_trace(mo)
+    if not ai or not am:
+        return None
+    def fin(v): return v is not None and v == v and abs(v) != float("inf")
+    def rel(x, y):
+        sc = max(max((abs(v) for v in x if fin(v)), default=0.0), max((abs(v) for v in y if fin(v)), default=0.0), 1e-300)
+        return max((abs(a - b) for a, b in zip(x, y)), default=0.0) / sc
+    for q in range(min(len(ai), len(am))):
+        if q < min(len(ti), len(tm)):
+            a, b = ti[q], tm[q]
+            if len(a) != len(b) or not all(fin(v) for v in a + b):
+                return None
+            d = rel(a, b)
+            if d > 1e-8:
+                j = max(range(len(a)), key=lambda j_: abs(a[j_] - b[j_]))
+                return (f"attempt #{q + 1}: the matrix the implementation factors differs from I/(gamma H) - df/dy(y) at the state the "
+                        f"Rosenbrock formulas produce from the {q} earlier attempt(s) (which agree with the model): stored element {j} is {a[j]!r}, "
+                        f"the formulas give {b[j]!r}")
+            if d > 1e-12:
+                return None
+        (al_i, e_i), (al_m, e_m) = ai[q], am[q]
+        if not (fin(al_i) and fin(al_m)) or abs(al_i - al_m) > 1e-12 * abs(al_m):
+            return None
+        if e_i is None or e_m is None or not (fin(e_i) and fin(e_m)):
+            return None
+        de = abs(e_i - e_m) / max(abs(e_m), 1e-8)
+        if de > 1e-4:
+            return (f"attempt #{q + 1}: the error norm of the implementation is {e_i!r}; the s-stage formulas applied to the state produced by the {q} "
+                    f"earlier attempt(s) (which agree with the model) give {e_m!r}")
+        if de > 1e-11:
+            return None
+    return None
+
+def oracle_be_linear_composed(c, out):
+    """backward Euler on y' = A y: a Converged run without failed inner loops is the composition of the closed-form
+    implicit-Euler maps y -> (I - H A)^-1 y over the step schedule of backward_euler.inl (h_start, doubled after two
+    accepted steps, clipped to the remaining interval), and the schedule adds up to time_step"""
+    s = parse_solve(out or "")
+    if s is None:
+        return f"Solve did not return a result: '{(out or '')[:80]}'"
+    m = c.meta; st = s["stats"]
+    if s["status"] != "Converged" or st["rej"] != 0 or any(v != v or abs(v) == float("inf") for v in s["y"]):
+        return None
+    dt = m["dt"]; H = min(m["h_start"], dt) if m["h_start"] != 0.0 else dt
+    sched = []; t = 0.0; nsucc = 0
+    while t < dt and len(sched) < 10000:
+        sched.append(H); t += H; nsucc += 1
+        if nsucc >= 2: nsucc = 0; H *= 2.0
+        H = min(H, dt - t)
+    if len(sched) != st["acc"]:
+        return (f"backward Euler (linear mechanism, no failed inner loop) accepted {st['acc']} internal steps; the schedule h_start={m['h_start']!r}, "
+                f"doubling after two accepted steps, clipped to the rest of time_step={dt!r} has {len(sched)}")
+    ns, perm, rx = m["ns"], m["perm"], m["rx"]
+    A = [[0.0] * ns for _ in range(ns)]
+    for q, (reactants, products) in enumerate(rx):
+        j = perm[reactants[0]]; k = m["k"][q]
+        A[j][j] -= k
+        for (pid, yl) in products:
+            A[perm[pid]][j] += yl * k
+    y = [0.0] * ns
+    for i in range(ns): y[perm[i]] = m["y"][i]
+    from fractions import Fraction as Fr
+    yq = [Fr(v) for v in y]
+    for h in sched:
+        M = [[(Fr(1) if i == j else Fr(0)) - Fr(h) * Fr(A[i][j]) for j in range(ns)] + [yq[i]] for i in range(ns)]
+        for col in range(ns):
+            piv = next(r_ for r_ in range(col, ns) if M[r_][col] != 0)
+            M[col], M[piv] = M[piv], M[col]
+            for r_ in range(ns):
+                if r_ != col and M[r_][col] != 0:
+                    f = M[r_][col] / M[col][col]
+                    M[r_] = [a - f * b_ for a, b_ in zip(M[r_], M[col])]
+        yq = [Fr(float(M[i][ns] / M[i][i])) for i in range(ns)]
+    got = [0.0] * ns
+    for i in range(ns): got[perm[i]] = s["y"][i]
+    scale = max(abs(float(v)) for v in yq) or 1.0
+    for i in range(ns):
+        e = float(yq[i])
+        if abs(got[i] - e) > 1e-7 * max(abs(e), 1e-6 * scale):
+            return (f"backward Euler on a linear mechanism: species slot {i} = {got[i]!r}, the composition of the implicit-Euler maps over "
+                    f"H = {sched[:6]}{'...' if len(sched) > 6 else ''} (sum = time_step = {dt!r}) gives {e!r}")
     return None
 
 # =============================================================================== C16 (ThreadSanitizer run)
